@@ -2,12 +2,15 @@ import Driver.QuadCmd
 import Driver.MeshCmd
 import Driver.FormulaCmd
 import Driver.SLCmd
+import Driver.QuadtreeCmd
+import Driver.EstimatorCmd
 /- stbem-driver: one protocol line in, one canonical line out. -/
 open Driver
 
 structure St where
   mesh : Option Stbem.Mesh.Mesh := none
   sl : SLState := {}
+  qt : QtSt := {}
 
 def dispatch (st : St) (line : String) : St × String :=
   let args := (line.trimAscii.toString.splitOn " ").filter (· ≠ "")
@@ -16,6 +19,8 @@ def dispatch (st : St) (line : String) : St × String :=
   | "q1" :: _ | "q2" :: _ | "q3" :: _ | "slo" :: _ => (st, quadCmd args)
   | "fm" :: _ => (st, formulaCmd args)
   | "sl" :: _ => let r := slCmd st.sl args; ({ st with sl := r.1 }, r.2)
+  | "qt" :: _ => let r := qtCmd st.qt args; ({ st with qt := r.1 }, r.2)
+  | "ee" :: _ => let r := eeCmd st.mesh args; ({ st with mesh := r.1 }, r.2)
   | "mesh" :: _ => let r := meshCmd st.mesh args; ({ st with mesh := r.1 }, r.2)
   | _ => (st, "bad-op")
 
